@@ -656,6 +656,36 @@ Proof.
     rewrite E. change 0 with (inject_Z 0). rewrite <- Zlt_Qlt. exact Hpos.
 Qed.
 
+(* a Mime / MimeLite round in which no client has a training batch and no example exists leaves the
+   parameters unchanged (the guard `0 < total_examples` of the full-batch theorem excludes exactly this round) *)
+Lemma mime_empty_round_keeps_params step use_cv slr p s (clients : list mclient) :
+  NoDup (map c_id (map fst clients)) -> Forall (fun mc : mclient => c_batches (fst mc) = []) clients ->
+  (total_examples (map fst clients) <= 0)%Z ->
+  exists q s1, mime_round grad split copt_apply step use_cv slr (p, s) clients = Some (q, s1) /\ q =v= p.
+Proof.
+  intros ND Hb Ht. rewrite mime_round_eq. do 2 eexists. split; [reflexivity|].
+  set (cv := if use_cv then sg_q p clients else []).
+  set (outs := ml_outputs step p s cv clients).
+  assert (Lo : Forall (fun o => length (snd o) = length p) outs).
+  { unfold outs, ml_outputs. apply Forall_map. rewrite Forall_forall in *. intros mc I. cbn [snd]. rewrite (Hb mc I).
+    cbn [fold_left m_params]. apply vsub_length; reflexivity. }
+  rewrite sub1_vsub, (mean_of_wmean (length p) p (client_num_examples (map fst clients)) outs eq_refl Lo).
+  assert (Wc : wf_clients (length p) (wcl (client_num_examples (map fst clients)) outs))
+    by (unfold wf_clients, wcl; apply Forall_map; exact Lo).
+  rewrite (wmean_zero_total (length p) _ Wc).
+  - rewrite vscale_vzero. clear. induction p as [|x p IH]; cbn; constructor; [ring|exact IH].
+  - unfold wtot, wcl, outs, ml_outputs. rewrite !map_map. cbn [fst].
+    assert (E : qsum (map (fun mc : mclient => inject_Z (num_of (client_num_examples (map fst clients)) (c_id (fst mc)))) clients)
+                == inject_Z (total_examples (map fst clients))).
+    { assert (E1 : map (fun mc : mclient => inject_Z (num_of (client_num_examples (map fst clients)) (c_id (fst mc)))) clients
+                   = map inject_Z (map c_n (map fst clients))).
+      { rewrite !map_map. apply map_ext_in. intros mc I.
+        rewrite (num_of_client (map fst clients) (fst mc) ND (in_map fst _ _ I)). reflexivity. }
+      rewrite E1. unfold total_examples. rewrite <- inject_Z_fold. change (inject_Z 0) with 0.
+      rewrite fold_left_Qplus, Qplus_0_l. reflexivity. }
+    rewrite E. change 0 with (inject_Z 0). rewrite <- Zle_Qle. exact Ht.
+Qed.
+
 (* multi-round: MimeLite(SGD eta, server lr 1) follows FedAvg(SGD eta clients, SGD(1) server) *)
 Lemma mimelite_runs_eq_fedavg (cohorts : list (list mclient)) : forall p p' s os,
   (forall g o q, length g = length q -> snd (sopt g o q) =v= vsub q g) ->
